@@ -23,9 +23,8 @@ fa = {k: v for k, v in tidx.items() if v["false_alarms"]}
 nv = {k: v for k, v in tidx.items() if v["no_verdict"] and not v["false_alarms"]}
 groups = {}
 for k in tidx:
-    g = "evolution round 2" if k.startswith("evo2-") else "evolution round 3" if k.startswith("evo3-") else \
-        "evolution round 4" if k.startswith("evo4-") else "evolution round 5" if k.startswith("evo5-") else "evolution round 6" if k.startswith("evo6-") else "evolution round 7" if k.startswith("evo7-") else "evolution round 1" if k.startswith("evo-") else \
-        "reclassified seeds" if k.startswith("seed") else "refactoring twins"
+    m_ = __import__("re").match(r"evo(\d*)-", k)
+    g = ("evolution round %s" % (m_.group(1) or "1")) if m_ else "reclassified seeds" if k.startswith("seed") else "refactoring twins"
     groups.setdefault(g, [0, 0, 0])
     groups[g][0] += 1
     groups[g][1] += 1 if tidx[k]["false_alarms"] else 0
